@@ -317,7 +317,8 @@ def check_c10(an):
     # Everything has come to rest (no thread can move, nothing is in flight) in a session of
     # conforming players with no injected abort: whatever the calls and cards made so far entitle
     # a seat to -- relays, the lead prompt, dummy -- can no longer arrive, so it is owed.
-    at_rest = run.outcome == 'deadlock' and not run.scn.get('abort') and an.offending is None
+    at_rest = not finished and run.outcome in ('deadlock', 'finished') and \
+        not run.scn.get('abort') and an.offending is None
     lead_dec = {}
     for i, d in enumerate(an.decisions):
         if d['card_decs']:
@@ -344,7 +345,7 @@ def check_c10(an):
                        key=f'stream-extra:{toks[len(exp)][0]}')
             elif (finished or at_rest) and len(toks) < len(exp) and not _seat_left(run, s):
                 an.add('C10', 'stream-short',
-                       f'{s}: {"session completed" if finished else "everything is at rest"} but '
+                       f'{s}: {"session completed" if finished else "everything has come to rest"} but '
                        f'{len(exp) - len(toks)} message(s) it is entitled to were never sent, '
                        f'first missing {fmt_tok(exp[len(toks)])}',
                        key=f'stream-short:{exp[len(toks)][0]}')
@@ -818,11 +819,20 @@ def check_c19_understood(an):
     run = an.run
     if run.scn.get('abort') or an.offending is not None:
         return
-    for name, args, result, exc in parserec.PARSE_LOG:
-        if exc is not None and name in _SERVER_BUILT:
+    roles = parserec.PARSE_ROLE
+    for i, (name, args, result, exc) in enumerate(parserec.PARSE_LOG):
+        if exc is None:
+            continue
+        role = roles[i] if i < len(roles) else '-'
+        in_client = role.startswith(('client:', 'req:', 'fill:'))
+        # whatever a client of a conforming session is handed came from the real table manager:
+        # built by it, or relayed by it from another conforming player -- verbatim or rewritten,
+        # that is its business; the receiving parser must make sense of it
+        if name in _SERVER_BUILT or (in_client and name in ('parse_bid', 'parse_card')):
             an.add('C19', 'built-not-understood',
-                   f'the client\'s {name} raised {exc} on {args[0]!r:.160}, a line the table '
-                   f'manager built', key=f'built-not-understood:{name}')
+                   f'{role}: {name} raised {exc} on {args[0]!r:.160}, a line the table manager '
+                   f'sent in a session of conforming players',
+                   key=f'built-not-understood:{name}')
             return
     for pl in run.players:
         if pl.kind != 'bundled' or pl.obs.exception is None:
